@@ -442,6 +442,17 @@ def sp_forall(interp, st, args, kwargs, node, exists=False):
     return z3.ForAll(vars_, z3.Implies(rng, body))
 
 
+def sp_forall_str(interp, st, args, kwargs, node):
+    """forall over all strings (a token variable)"""
+    clo = args[0]
+    names = [a.arg for a in clo.node.args.args]
+    vars_ = [z3.String(V.fresh_name(n)) for n in names]
+    body = _call_pred(interp, st, clo, vars_)
+    if isinstance(body, bool):
+        return body
+    return z3.ForAll(vars_, to_z3(body))
+
+
 def sp_exists(interp, st, args, kwargs, node):
     return sp_forall(interp, st, args, kwargs, node, exists=True)
 
@@ -721,6 +732,7 @@ SPEC_FUNCTIONS = {
     "reach_common": sp_reach_common,
     "reach_trans": sp_reach_trans,
     "forall": sp_forall,
+    "forall_str": sp_forall_str,
     "exists": sp_exists,
     "implies": sp_implies,
     "iff": sp_iff,
